@@ -351,7 +351,9 @@ fn main() {
         }
         // --- histories KF28 excuses (different component-/module-kinded requirements for one name): the result
         // must be what the contract says or what the Impl layer says merge_world/merge_module_type do today
-        if kf == "component-or-module-requirement" && !err.as_deref().map(|e| e.starts_with("PANIC")).unwrap_or(false) {
+        // (and KF29: one instance type definition imported under several names -- same rule)
+        if (kf == "component-or-module-requirement" || kf == "shared-instance-type") && !err.as_deref().map(|e| e.starts_with("PANIC")).unwrap_or(false) {
+            let (known, unexplained) = if kf == "shared-instance-type" { ("shared_merge", "shared_merge_unexplained") } else { ("world_merge", "world_merge_unexplained") };
             let got: Option<BTreeMap<String, Value>> = match (&agg, &err) {
                 (Some(a), None) => Some(a.imports().map(|(n, k)| (n.to_string(), describe(a.types(), &sigs, k, true))).collect()),
                 _ => None,
@@ -368,9 +370,9 @@ fn main() {
             if got == contract {
                 // the property holds on this history
             } else if got == model {
-                emit(&mut so, "world_merge", format!("aggregate yields {}, the contract says {}", show(&got), show(&contract)));
+                emit(&mut so, known, format!("aggregate yields {}, the contract says {}", show(&got), show(&contract)));
             } else {
-                emit(&mut so, "world_merge_unexplained", format!("aggregate yields {}; neither the contract ({}) nor the model of merge_world/merge_module_type as they are ({})",
+                emit(&mut so, unexplained, format!("aggregate yields {}; neither the contract ({}) nor the model of the code as it is ({})",
                     show(&got), show(&contract), show(&model)));
             }
             continue;
